@@ -108,6 +108,8 @@ type walkOpts struct {
 	// loops a path may leave through the header only after one iteration
 	// (models "the collection ranged over is not empty")
 	mustIterate []*loopInfo
+	// set to true when the state budget ran out (the search is then incomplete)
+	exhausted *bool
 }
 
 func walkPathsOpt(fn *ssa.Function, cuts map[Edge]bool, o walkOpts, visit func(b *ssa.BasicBlock, facts pathFacts) bool) {
@@ -134,6 +136,10 @@ func walkPathsOpt(fn *ssa.Function, cuts map[Edge]bool, o walkOpts, visit func(b
 
 	walk = func(b *ssa.BasicBlock, facts pathFacts) {
 		if stop || budget <= 0 {
+			if budget <= 0 && o.exhausted != nil {
+				*o.exhausted = true
+			}
+
 			return
 		}
 
